@@ -46,7 +46,8 @@ KINDS = ['assign', 'echo', 'print', 'none', 'str', 'both', 'for', 'def', 'raise'
          'semiprint', 'ell', 'skip', 'nw', 'ied', 'forecho', 'if', 'try', 'raise_stmt', 'with', 'echo_after_print_stmt',
          'echolist', 'echodict', 'echobytes', 'echonone', 'class', 'mlecho', 'raise_called', 'whileecho', 'printml', 'ell_ml',
          'both_falsy', 'echo_falsy', 'print_then_falsy_semi', 'raise_syntax_eval', 'raise_syntax_exec', 'raise_indent_exec',
-         'raise_syntax_compile', 'raise_chained', 'raise_multiline_msg']
+         'raise_syntax_compile', 'raise_chained', 'raise_multiline_msg', 'printblank2', 'printblank_only', 'printblank3_echo',
+         'readprev', 'readprev']
 FALSY = ['0', '0.0', 'False', "''", '[]', '{}', '()', "b''", '0j']
 
 
@@ -63,6 +64,14 @@ def example_source(k, c):
         src = ["print('l1 {0}\\nl2 {0}\\nl3', {1})".format(k, t)]
     elif c == 'printblank':
         src = ["print('a{}\\n\\nb', {})".format(k, t)]
+    elif c == 'printblank2':
+        # several empty lines in a row: consecutive <BLANKLINE> markers in the want
+        src = ["print('a{}\\n\\n\\nb', {})".format(k, t)]
+    elif c == 'printblank_only':
+        src = ["print('\\n', {})".format(t)]
+    elif c == 'printblank3_echo':
+        pre = [['def fblank(v):', "    print('x\\n\\n\\n\\ny')", '    return v']]
+        src = ['fblank({} or {})'.format(t, k)]
     elif c == 'both':
         pre = [['def fboth(v):', "    print('in f', v)", '    return v + 2']]
         src = ['fboth({} or {})'.format(t, k)]
@@ -201,8 +210,18 @@ def text_strategy(D, max_examples=8):
     exs = []
     defined = set()
     n = D.int(1, max_examples)
+    assigned = []
     for k in range(1, n + 1):
         c = D.choice(KINDS)
+        if c == 'readprev':
+            # echo a name assigned by an earlier example (after whatever lies in between: wants, prose, other examples)
+            if not assigned:
+                c = 'assign'
+            else:
+                exs.append((['(T.append({}) or x{})'.format(k, assigned[-1])], 'readprev'))
+                continue
+        if c == 'assign':
+            assigned.append(k)
         pre, src = example_source(k, c)
         for p in pre:
             if p[0] not in defined:
@@ -307,13 +326,16 @@ def _failing_kind(case, fp):
 def _check_wrapped(text, T1):
     """the same text inside a google 'Example:' block of a module file, run through doctest_module"""
     import xdoctest
-    if '"""' in text or '\\' in text:
+    if '"""' in text:
         return
     name = sandbox.unique_name('vpc20')
     with sandbox.scratch('c20') as d:
         path = os.path.join(d, name + '.py')
         body = '\n'.join(('        ' + ln if ln.strip() else '') for ln in text.split('\n'))
-        src = 'T = []\n\n\ndef func():\n    r"""\n    Summary line.\n\n    Example:\n{}\n    """\n'.format(body)
+        # the module's globals carry the names the examples assign (x1, x2, ...): the standard module copies the module
+        # globals once per doctest, so a name rebound by one example stays rebound for the following ones
+        mg = ''.join("x{} = 'module value'\n".format(k) for k in range(1, 13))
+        src = 'T = []\n' + mg + '\n\ndef func():\n    r"""\n    Summary line.\n\n    Example:\n{}\n    """\n'.format(body)
         with open(path, 'w') as f:
             f.write(src)
         try:
@@ -373,7 +395,8 @@ def selftest():
     res, T, rep, _ = run_stdlib('>>> 1 + 1\n3\n')
     assert res.failed
     for c in KINDS:
-        example_source(1, c)
+        if c != 'readprev':
+            example_source(1, c)
 
 
 def jobs(tier):
